@@ -261,7 +261,7 @@ def _session_cmp(lines, io, mo):
 def _sessions(ctx, tag, n, caches, texts=None, evals_only=False):
     seed = ctx['seed']
     texts = texts or histgen.pool(seed)
-    variants = [v for t in texts for v in (t, t.rstrip(), t.rstrip() + ' ', t.rstrip() + '\n')]
+    variants = [v for t in texts for v in histgen.near_dups(t)]
     corr.pool()
     table = histgen.fresh_table(variants + histgen.NAMESRC)
     lines, descr = [], []
